@@ -15,7 +15,7 @@ Judge(e) ==
      IF Len(e.pts) < 3 \/ e.sg <= 0 THEN "skip"
      ELSE LET want == AllInTol(Pts(e), e.tn, e.td) IN
           IF e.pit # want THEN "predicate.points_in_tolerance"
-          ELSE IF e.ref # want THEN "predicate.reference_max_distance"
+          ELSE IF e.ref # want /\ ~HasTie(Pts(e), e.tn, e.td) THEN "predicate.reference_max_distance"     \* the reference takes a square root: not judged at an exact tie
           ELSE "ok"
   ELSE "badevent"
 TInit == i = 0 /\ verdict = "init"
